@@ -333,6 +333,33 @@ def _field_index(ctx, adt, name):
     return None
 
 
+def lock_list_path(ctx, adt, _depth=0):
+    """field path (tuple of field indices) from a sorting collection to its cached lock list - a `Vec<&dyn RawLock>` /
+    `Box<[&dyn RawLock]>`, possibly wrapped in crate-private newtypes - or None"""
+    a = ctx.F.adts.get(adt)
+    if not a or _depth > 3 or not a["variants"]:
+        return None
+    for i, f in enumerate(a["variants"][0]["fields"]):
+        t = f["ty"]
+        if t["k"] == "adt" and (t["path"].endswith("Vec") or t["path"].endswith("Box")) and \
+                any(x["k"] == "dyn" and x.get("principal") == RL for x in ty_walk(t)):
+            return (i,)
+        if t["k"] == "adt" and t["path"] in ctx.F.adts:
+            sub_ = lock_list_path(ctx, t["path"], _depth + 1)
+            if sub_ is not None:
+                return (i,) + sub_
+    return None
+
+
+def descend(v, path):
+    """follow a field path through aggregate values"""
+    for i in path:
+        if v is None or v[0] != "agg" or i >= len(v[4]):
+            return None
+        v = v[4][i]
+    return v
+
+
 def lock_list_field(ctx, adt):
     """index of the cached lock-list field (Vec<&dyn RawLock>) of a sorting collection, if any"""
     for i, f in enumerate(ctx.F.adts[adt]["variants"][0]["fields"]):
@@ -378,12 +405,12 @@ def run_on_self_list(ctx, f, m, elem_ty=None, by="ref", model_vecs=False, const_
     lid = "SELF"
     if base["k"] == "adt" and base["path"] in SORTING:
         lid = "LIST"
-        lf = lock_list_field(ctx, base["path"])
+        lp = lock_list_path(ctx, base["path"]) or (lock_list_field(ctx, base["path"]),)
         listmodel.new_list(I, lid, m, {"k": "ref", "mut": False, "s": "&dyn lockable::RawLock",
                                        "ty": {"k": "dyn", "principal": RL, "s": "dyn lockable::RawLock"}})
         I.oploc["a1"] = ("O", "a1", ())
         I.optype["a1"] = t1
-        st_.heap[("O", "a1", ("*", lf))] = listmodel.view(lid, 0, m)
+        st_.heap[("O", "a1", ("*",) + tuple(lp))] = listmodel.view(lid, 0, m)
         args.append(("op", "a1", None))
     else:
         ety = elem_ty or (base["ty"] if base["k"] in ("array", "slice") else (base["args"][0]["ty"] if seq_container_kind(base) == "box" else base["args"][0]))
